@@ -31,7 +31,7 @@ CONSTANTS
  RHostname = {"", "alt.test"}
  RDefCred = {"up2", "h2"}
  RDockKey = {"r1.test", "https://index.docker.io/v1/"}
- RDockCred = {"up1", "h1"}
+ RDockCred = {"up1", "h1", "s1"}
  RFlagName = {"r1.test", "docker.io"}
  ProbeSet <- ProbeSetStd
  GProbes <- ProbesStd
